@@ -14,7 +14,13 @@ from ..util import stmts_sorted
 
 N = [Poly.sym("n0"), Poly.sym("n1"), Poly.sym("n2")]
 C, S = Poly.sym("C"), Poly.sym("S")
-REL = {"n2": Poly.const(1) - N[0] ** 2 - N[1] ** 2, "S": Poly.const(1) - C ** 2}
+# sign-and-magnitude atoms that are *not* trigonometric polynomials: A = |sin t|, G = sgn(t)|sin t|, Z = sgn(t)
+A, G, Z = Poly.sym("A"), Poly.sym("G"), Poly.sym("Z")
+REL = {"n2": Poly.const(1) - N[0] ** 2 - N[1] ** 2, "S": Poly.const(1) - C ** 2,
+       "A": Poly.const(1) - C ** 2, "G": Poly.const(1) - C ** 2, "Z": Poly.const(1)}
+NONTRIG = {"A": "|sin(theta)| (e.g. sqrt(1 - cos^2)), which differs from sin(theta) for every negative angle",
+           "G": "sgn(theta)|sin(theta)|, which differs from sin(theta) whenever pi < |theta| < 2 pi (mod 2 pi)",
+           "Z": "sgn(theta), which is not a trigonometric polynomial"}
 
 
 class Mat:
@@ -178,6 +184,27 @@ def _ev(e, env, out: Sym, st):
             return None
         if nm in ("cos", "sin") and e.args and norm(e.args[0]) == out.theta_param:
             return C if nm == "cos" else S
+        if nm == "sqrt" and len(e.args) == 1:
+            v = _ev(e.args[0], env, out, st)
+            if isinstance(v, Poly) and reduce_poly(v - S * S, REL).is_zero():
+                return A
+            return None
+        if nm in ("abs", "fabs", "absolute") and len(e.args) == 1:
+            v = _ev(e.args[0], env, out, st)
+            return A if isinstance(v, Poly) and (v == S or v == -S or v == A) else None
+        if nm == "sign" and len(e.args) == 1:
+            if norm(e.args[0]) == out.theta_param:
+                return Z
+            return None
+        if nm == "copysign" and len(e.args) == 2:
+            a = _ev(e.args[0], env, out, st)
+            if isinstance(a, Poly) and a == A:
+                if norm(e.args[1]) == out.theta_param:
+                    return G
+                b = _ev(e.args[1], env, out, st)
+                if isinstance(b, Poly) and b == S:
+                    return S
+            return None
         if nm in ("array", "asarray") and e.args and isinstance(e.args[0], (ast.List, ast.Tuple)) \
                 and len(e.args[0].elts) == 3 and all(isinstance(r, (ast.List, ast.Tuple)) and len(r.elts) == 3
                                                       for r in e.args[0].elts):
@@ -255,6 +282,14 @@ def rules(ctx: Ctx):
         kn = [reduce_poly(x, REL) for x in K.mv(N)]
         ctx.ob("R17.8", f, "K.n = %s" % kn, all(x.is_zero() for x in kn),
                "the generator annihilates the axis", node=sy.skew_node)
+    # atoms that are not trigonometric polynomials in theta
+    red = [[reduce_poly(R.r[i][j], REL) for j in range(3)] for i in range(3)]
+    nontrig = sorted({sname for row in red for x in row for sname in x.symbols() if sname in NONTRIG})
+    for sname in nontrig:
+        ctx.ob("R17.9", f, "matrix entries depend on %s" % NONTRIG[sname].split(",")[0], False,
+               "the entries must be polynomials in cos(theta) and sin(theta) of the angle itself: this matrix uses "
+               "%s, so for those angles (inside the stated range) it is the rotation by another angle and "
+               "R(a)R(b) = R(a+b) fails" % NONTRIG[sname], node=f.node)
     # identities by normalisation
     I = Mat.eye()
     ctx.ob("R17.9", f, "R.R^T - I", R.mm(R.T()).equals(I, REL),
@@ -265,7 +300,7 @@ def rules(ctx: Ctx):
     ctx.ob("R17.8", f, "R.n - n = %s" % rn, all(x.is_zero() for x in rn), "the axis is left fixed", node=f.node)
     tr = reduce_poly(R.trace() - (Poly.const(1) + 2 * C), REL)
     ctx.ob("R17.7", f, "tr R - (1 + 2 cos) = %r" % tr, tr.is_zero(), "trace is 1 + 2 cos(theta)", node=f.node)
-    Rm = R.subst({"S": -S})
+    Rm = R.subst({"S": -S, "G": -G, "Z": -Z})
     ctx.ob("R17.6", f, "R(-theta) - R(theta)^T", Rm.equals(R.T(), REL),
            "R(-theta) = R(theta)^T (cos even, sin odd)", node=f.node)
     # composition: R(a) R(b) = R(a+b) with the angle-addition formulas
